@@ -45,6 +45,7 @@ def r1_emitters(ctx) -> None:
     me = env.functions.get("make_envelope")
     if me is None:
         ctx.broken("anchor vanished: hugr.envelope.make_envelope")
+    me = ctx.cfn("hugr.envelope.make_envelope")          # canonical: a helper extracted from the format match is seen through
     dumps = [c for c in calls_in(me) if call_name(c) in ("model_dump_json", "model_dump")]
     ok = bool(dumps) and any(u(d.func.value) == "package._to_serial()" and call_name(d) == "model_dump_json" for d in dumps) and all(
         isinstance(d.func.value, ast.Call) and call_name(d.func.value) == "_to_serial" and not d.args
